@@ -39,6 +39,20 @@ def join(a, b):
         if len(key) < 2000:
             _reg(key, {"k": "VerOr", "conjs": conjs})
             out = out | {("G", key, True, frozenset({VER}))}
+        # a data guard that holds on one side only, where the two sides are told apart by contradicting version guards, still
+        # holds afterwards *under that side's version condition*: `if (V) { if (!named) return; }  rest` runs `rest` with
+        # "V => named" — the guard of an early return taken only in some versions
+        for mine, other, vm, vo in ((a, b, va, vb), (b, a, vb, va)):
+            km = tuple(sorted((f[1], f[2]) for f in vm))
+            if not any((k, not pol) in {(f[1], f[2]) for f in vo} for k, pol in km):
+                continue
+            for f in mine - other:
+                if f[0] != "G" or VER in f[3] or f[1].startswith("V{") or f[2] is None:
+                    continue
+                ikey = "V{" + " & ".join(("" if pol else "!") + k for k, pol in km) + "}=>" + ("" if f[2] else "!") + f[1]
+                if len(ikey) < 2000:
+                    _reg(ikey, {"k": "VerImp", "conj": km, "then": (f[1], f[2])})
+                    out = out | {("G", ikey, True, frozenset(f[3]) | {VER, ("imp",)})}
     return out
 
 
